@@ -91,7 +91,14 @@ def gen_cases(tier, seed):
             extra += ["--reflink", r.choice(["never", "auto"])]
         if r.random() < 0.15:
             extra.append("--no-progress")
-        args = ["--driver", driver, "-w", str(r.choice([1, 2, 4, 8])), "--block-size", "16KB", "-n", "-r"] + extra + names + ["dst"]
+        dsp = r.choice(["dst", "dst", "dst/", "./dst", "@ROOT@/dst", "elsewhere/../dst"])
+        form = r.choice(["plain", "plain", "plain", "target-directory", "glob"])
+        srcargs = list(names)
+        if form == "glob":
+            extra.append("--glob")
+            srcargs = ["n[0-9][0-9]"] if r.random() < 0.5 else ["n0*", "n1*"] if k > 10 else ["n*"]
+        base = ["--driver", driver, "-w", str(r.choice([1, 2, 4, 8])), "--block-size", "16KB", "-n", "-r"] + extra
+        args = base + (["--target-directory", dsp] + srcargs if form == "target-directory" else srcargs + [dsp])
         yield {"spec": spec, "pre": pre, "args": args, "driver": driver, "colls": colls, "pos": posclass if ncoll else "none", "plan": sch, "fs": "ext4"}
 
 
@@ -109,7 +116,7 @@ def run_case(case):
         pre = tree.snapshot(root)
         plan = dict(case["plan"])
         plan.update({"log_mode": "full", "pct_horizon": 300})
-        run = core.run_xcp(sb, case["args"], plan)
+        run = core.run_xcp(sb, [a.replace("@ROOT@", root) for a in case["args"]], plan)
         if run.verdict != "exited":
             res["inconc"].append("run-" + run.verdict)
             return res
